@@ -134,7 +134,7 @@ func init() {
 			}
 			return nil
 		},
-		"verifSymbolic": func(in *Interp, fr *frame, args []Value) Value { return True },
+		"verifSymbolic": func(in *Interp, fr *frame, args []Value) Value { return Bool(in.ex.fixed == nil) },
 		// verifConcInt forks over the feasible values of an int (bounded)
 		"verifConcInt": func(in *Interp, fr *frame, args []Value) Value {
 			t := args[0].(*Term)
